@@ -8,6 +8,7 @@ NOTE="trusted: go/ssa construction, the executor's instruction semantics (sample
 checks={
  "C03":("bounded symbolic model checking of the window kernel (checkEffective, util.OnOrAfter, time.Time methods from stdlib source) against an independent oracle for all instants under P1","DESIGN.md §8 C03"),
  "C13":("LintSource.FromString/UnmarshalJSON/SourceList.FromString executed symbolically on an unbounded symbolic string; accepted set == declared constants (read from the SSA package)","DESIGN.md §8 C13"),
+ "C16":("the RSA key-quality lints run symbolically (through the registry built by the engine-executed init chain) on a certificate with an arbitrary positive modulus (SMT Int) and exponent (64-bit) and compared with arithmetic oracles; trial division by the prime table: table facts + 750 divisor obligations; Fermat: reported factors multiply back (rounds bounded)","DESIGN.md §8 C16"),
  "C19":("util.IsIANAReserved/IntersectsIANAReserved with net.IP/net.IPNet methods executed from stdlib source; address bytes and prefix length symbolic (all 2^32 IPv4 addresses, all 2^128 IPv6 addresses for the block laws, every IPv4 prefix length for the network laws)","DESIGN.md §8 C19"),
  "C14":("status<->label tables executed symbolically for an arbitrary 64-bit status and an arbitrary label string; round trip and rejection decided by z3","DESIGN.md §8 C14"),
 }
